@@ -175,11 +175,12 @@ func chainScenario() {
 	}
 	wg.Wait()
 	settle()
-	any := a.state == 1 || b.state == 1 || (mask&1 != 0) || (mask&2 != 0)
+	any := a.state == 1 || b.state == 1 || (mask&1 != 0 && a.state == 0) || (mask&2 != 0 && b.state == 0)
 	vrt.Log("phase1", any)
 	a.cancel()
 	b.cancel()
 	settle()
+	vrt.Log("phase2", a.state != 3 || b.state != 3) // some context is cancelled by now unless neither can be
 	vrt.Log("end")
 }
 
